@@ -224,8 +224,10 @@ Init ==
     /\ hist = <<>>
 
 Within == Len(hist) < MaxSteps
-Next == Within /\ (GetItem \/ SetItem \/ DelItem \/ Contains \/ Get \/ Pop \/ SetDefault \/ Update \/ Construct
-        \/ Copy \/ DeepCopy \/ Pickle \/ KeysOp)
+Ops  == GetItem \/ SetItem \/ DelItem \/ Contains \/ Get \/ Pop \/ SetDefault \/ Update \/ Construct
+        \/ Copy \/ DeepCopy \/ Pickle \/ KeysOp
+\* (walk mode: the last action is fixed, so that the simulator sees - and prints - one final state per walk)
+Next == Within /\ (IF Mode = "walk" /\ Len(hist) = MaxSteps - 1 THEN KeysOp ELSE Ops)
 
 Spec == Init /\ [][Next]_vars
 
